@@ -24,7 +24,7 @@ type Opts struct {
 var AllFeatures = []string{
 	"async", "err", "multi", "bind", "struct", "value", "sets", "lit", "ext", "ctxparam",
 	"composite", "basic", "args", "unneeded", "multi-inj", "multi-file", "dupparam",
-	"generic", "variadic", "variadic-functype", "want-unsupplied", "kalias", "extalias", "value-and-pointer", "rewrap", "struct-both-forms", "alias-basic", "ctx-provider", "implements-error", "adv-pkg-shadowed-by-later-decl", "value-literal", "multi-var-sets", "ext-method-value", "err-alias", "prov-func-var-named-type", "nested-struct-expansion", "local-provider-ext-result", "arg-ext-type", "arg-hidden-ext", "set-ref-paren", "set-decl-paren", "set-alias-var", "elem-paren", "elem-hoisted-var", "inject-spelling", "prov-func-var",
+	"generic", "variadic", "variadic-functype", "want-unsupplied", "kalias", "extalias", "value-and-pointer", "rewrap", "struct-both-forms", "alias-basic", "ctx-provider", "implements-error", "adv-pkg-shadowed-by-later-decl", "value-literal", "multi-var-sets", "ext-method-value", "err-alias", "set-included-twice", "prov-func-var-named-type", "nested-struct-expansion", "local-provider-ext-result", "arg-ext-type", "arg-hidden-ext", "set-ref-paren", "set-decl-paren", "set-alias-var", "elem-paren", "elem-hoisted-var", "inject-spelling", "prov-func-var",
 	"async-struct", "ptrrecv", "aiface", "embedded",
 }
 
@@ -990,6 +990,20 @@ func (g *gen) genGroupsAndInjectors() {
 	for k := 1; k <= nSets; k++ {
 		setName[k] = g.name("set")
 	}
+	// diamond: a nested Set variable is included a second time, by another Set declared before it
+	// or directly by the declaration; its providers are still listed once in the source
+	alsoIn := make([]int, nSets+1) // set j is also an element of set alsoIn[j] (-1 = none, 0 = the declaration itself)
+	for j := range alsoIn {
+		alsoIn[j] = -1
+	}
+	for j := 2; j <= nSets; j++ {
+		if parent[j] != 0 && !inlineSet[parent[j]] && g.want("set-included-twice", "diamond", 35) {
+			m := rapid.IntRange(0, j-1).Draw(g.rt, "diamond-in")
+			if m != parent[j] && (m == 0 || !inlineSet[m]) {
+				alsoIn[j] = m
+			}
+		}
+	}
 	// injectors
 	nInj := 1
 	if g.o.MaxInjectors > 1 && g.want("multi-inj", "multiinj", 40) {
@@ -1023,7 +1037,7 @@ func (g *gen) genGroupsAndInjectors() {
 			es = append(es, g.units[ui])
 		}
 		for j := k + 1; j <= nSets; j++ {
-			if parent[j] == k {
+			if parent[j] == k || alsoIn[j] == k {
 				es = append(es, Elem{Kind: "set", Set: setName[j], Paren: g.want("set-ref-paren", "setparen", 12)})
 			}
 		}
@@ -1052,7 +1066,7 @@ func (g *gen) genGroupsAndInjectors() {
 	groupUnits = func(k int) []int {
 		out := append([]int{}, members[k]...)
 		for j := k + 1; j <= nSets; j++ {
-			if parent[j] == k && k != 0 {
+			if (parent[j] == k || alsoIn[j] == k) && k != 0 {
 				out = append(out, groupUnits(j)...)
 			}
 		}
@@ -1130,6 +1144,14 @@ func (g *gen) genGroupsAndInjectors() {
 				elems = append(elems, Elem{Kind: "inline", Inline: setElems(k)})
 			} else {
 				elems = append(elems, Elem{Kind: "set", Set: setName[k], Paren: g.want("set-ref-paren", "setparen", 12)})
+			}
+		}
+		for j := 2; j <= nSets; j++ {
+			if alsoIn[j] == 0 {
+				for _, ui := range groupUnits(j) {
+					included[ui] = true
+				}
+				elems = append(elems, Elem{Kind: "set", Set: setName[j]})
 			}
 		}
 		// interleave sets among direct elems
